@@ -157,8 +157,8 @@ def run(chk, replay=None):
         corpus = looplib.load_corpus(PROP)
         if corpus:
             absorb(corpus, RL.run_impl(corpus))
-        bound = 2 if tier == "quick" else 3
-        per_cfg = 300 if tier == "quick" else 20000
+        bound = 3 if tier == "quick" else 4
+        per_cfg = 800 if tier == "quick" else 40000
         cfgs = []
         for (name, prefix, later, threads, scripts) in loop_configs(tier):
             for poller in ("epoll", "poll"):
